@@ -40,6 +40,8 @@ def check(repo: Repo, rep: Report) -> None:
     rep.assumptions += ["heapq implements a binary heap over tuple comparison", "datetime/float comparison semantics"]
     rep.rule("O1-item-order", "ScheduledItem comparisons use duetime only", floor=3)
     rep.rule("O2-stable-queue", "PriorityQueue pushes (item, counter), increments the counter per enqueue, pops the heap minimum", floor=4)
+    rep.rule("O3-duetime-unchanged", "subclasses hand the requested due time to the queue unchanged (unit conversion only)", floor=2)
+    rep.rule("O4-queue-guarded", "the priority queue is touched only under the scheduler lock; peek and dequeue of one step share a region", floor=6)
     rep.rule("M1-clock-monotone", "every write to the clock is guarded so that it cannot move backwards, and inside run "
                                   "loops writes the due time of the item about to run", floor=6)
     rep.rule("A1-advance-bounds", "advance_to dequeues only items with duetime <= target and ends with clock = target; "
@@ -80,6 +82,56 @@ def check(repo: Repo, rep: Report) -> None:
     sa = repo.fn(V, "VirtualTimeScheduler.schedule_absolute")
     ok = any(isinstance(s.node, ast.Call) and dotted(s.node.func) == "self._queue.enqueue" for s in sites(sa))
     rep.ob("O2-stable-queue", sa, "self._queue.enqueue(si)", ok, "schedule_absolute does not enqueue into the priority queue")
+    # O3: TestScheduler / HistoricalScheduler do not re-time requests
+    ts = repo.opt_fn("reactivex/testing/testscheduler.py", "TestScheduler.schedule_absolute")
+    if ts is not None:
+        fw = [s for s in sites(ts) if isinstance(s.node, ast.Call) and dotted(s.node.func) == "super().schedule_absolute"]
+        ok = len(fw) == 1
+        if ok:
+            a0 = fw[0].node.args[0]
+            defs = [d for d in sites(ts) if isinstance(d.node, ast.Assign) and u(d.node.targets[0]) == u(a0)]
+            exprs = [a0] + [d.node.value for d in defs]
+            calls = {call_name(x) for e in exprs for x in ast.walk(e) if isinstance(x, ast.Call)}
+            ok = calls <= {"isinstance", "to_seconds", "to_datetime", "float"} and [u(a) for a in fw[0].node.args[1:]] == ts.params[2:4]
+        rep.ob("O3-duetime-unchanged", ts, "TestScheduler.schedule_absolute forwards the due time (converted only)", ok,
+               "TestScheduler re-times the request (clamp / shift of the due time): past-due actions no longer run in due-time order")
+    hs = repo.fn("reactivex/scheduler/historicalscheduler.py", "HistoricalScheduler")
+    over = [c.name for c in hs.children if c.is_func and c.name.startswith(("schedule", "start", "advance", "sleep", "add"))]
+    rep.ob("O3-duetime-unchanged", hs, "HistoricalScheduler inherits scheduling unchanged", not over,
+           f"HistoricalScheduler overrides {over} (not analysed here)")
+    sa_ = repo.fn(V, "VirtualTimeScheduler.schedule_absolute")
+    item = [s for s in sites(sa_) if isinstance(s.node, (ast.Assign, ast.AnnAssign)) and isinstance(s.node.value, ast.Call) and call_name(s.node.value) == "ScheduledItem"]
+    ok = False
+    if item:
+        a = item[0].node.value.args
+        dtv = u(a[3]) if len(a) > 3 else None
+        d = [x for x in sites(sa_) if isinstance(x.node, ast.Assign) and u(x.node.targets[0]) == dtv]
+        ok = bool(d) and u(d[0].node.value) == f"self.to_datetime({sa_.params[1]})" and [u(x) for x in a[1:3]] == [sa_.params[3], sa_.params[2]]
+    rep.ob("O3-duetime-unchanged", sa_, "ScheduledItem(self, state, action, to_datetime(duetime))", ok,
+           "the scheduled item does not carry the requested due time / action / state")
+    # O4: queue guarded by the lock
+    from ..engines.locks import ClassLocks
+    vcls = repo.fn(V, "VirtualTimeScheduler")
+    cl = ClassLocks(repo, vcls, ["self._lock"], ["_queue"])
+    for m in cl.methods:
+        if m.name == "__init__":
+            continue
+        for a in cl.accesses(m):
+            rep.ob("O4-queue-guarded", m, f"{m.name}: {a.mode} self._queue in `{short(a.site.stmt, 50)}`", a.locked,
+                   "the priority queue is used outside the scheduler lock: a concurrent schedule can be lost or an item run twice")
+    adv_ = repo.fn(V, "VirtualTimeScheduler.advance_to")
+    pk = [s for s in sites(adv_) if isinstance(s.node, ast.Call) and dotted(s.node.func) == "self._queue.peek"]
+    dq = [s for s in sites(adv_) if isinstance(s.node, ast.Call) and dotted(s.node.func) == "self._queue.dequeue"]
+    def with_of(s):
+        n = s.node
+        par = adv_.module.parents
+        while n is not None and not isinstance(n, ast.With):
+            n = par.get(n)
+        return n
+    ok = len(pk) == 1 and len(dq) == 1 and with_of(pk[0]) is not None and with_of(pk[0]) is with_of(dq[0])
+    rep.ob("O4-queue-guarded", adv_, "peek and dequeue in one locked region", ok,
+           "the item that was examined is not removed in the same locked region: another thread can schedule an earlier item "
+           "in between, which is then popped (lost) while the examined item runs twice")
     # invoke guard (all schedulers; the virtual-time ones are among them)
     rule_invoke_guard(repo, rep, "S1-invoke-guard")
     # M1
